@@ -277,8 +277,10 @@ class Check:
 
     def finish(self):
         wall = time.time() - self.t0
-        os.makedirs(os.path.join(VERIF, "evidence"), exist_ok=True)
-        os.makedirs(os.path.join(VERIF, "replays"), exist_ok=True)
+        evdir = os.environ.get("VERIF_EVIDENCE_DIR") or os.path.join(VERIF, "evidence")
+        rpdir = os.environ.get("VERIF_REPLAY_DIR") or os.path.join(VERIF, "replays")
+        os.makedirs(evdir, exist_ok=True)
+        os.makedirs(rpdir, exist_ok=True)
         for k in self.known:
             if k["id"] in self.known_hits:
                 print("KNOWN-FINDING: property=%s %s (%d occurrences this run)" % (self.prop, k["what"], len(self.known_hits[k["id"]])))
@@ -291,7 +293,7 @@ class Check:
             n += 1
             if n > 20:
                 continue
-            path = os.path.join(VERIF, "replays", "%s-%d.json" % (self.prop, n))
+            path = os.path.join(rpdir, "%s-%d.json" % (self.prop, n))
             with open(path, "w") as f:
                 json.dump({"property": self.prop, "key": key, "what": desc, "case": payload, "seed": self.seed, "tier": self.tier}, f, indent=1, default=str)
             print("VIOLATION property=%s replay=%s" % (self.prop, path))
@@ -321,7 +323,7 @@ class Check:
             "wall_s": round(wall, 2),
             "violations": len(seen),
         }
-        with open(os.path.join(VERIF, "evidence", "%s.json" % self.prop), "w") as f:
+        with open(os.path.join(evdir, "%s.json" % self.prop), "w") as f:
             json.dump(ev, f, indent=1, default=str)
             f.write("\n")
         print("%s %s: states=%d transitions=%d traces=%d evaluations=%d nontrivial=%d violations=%d wall=%.1fs" % (
